@@ -225,7 +225,7 @@ func Substring(ctx *expr.Context, input system.Collection, args ...expr.Expressi
 	if err != nil {
 		return nil, err
 	}
-	if int(start) >= len(fullString) {
+	if start < 0 || int(start) >= len(fullString) {
 		return system.Collection{}, nil
 	}
 
@@ -245,9 +245,9 @@ func Substring(ctx *expr.Context, input system.Collection, args ...expr.Expressi
 	}
 
 	var result system.String
-	if substringLength > -1 && int(start+substringLength) < len(fullString) {
+	if substringLength > -1 && int(start)+int(substringLength) < len(fullString) {
 		// Substring will not go out of bounds
-		result = system.String(fullString[start : start+substringLength])
+		result = system.String(fullString[start : int(start)+int(substringLength)])
 	} else {
 		result = system.String(fullString[start:])
 	}
